@@ -986,8 +986,11 @@ def dynamic_set_model(ctx, rule):
     from engine.loader import AnalysisError
     f = ctx.repo.func("param.parameters.Dynamic.__set__")
     problems, n = [], 0
-    for route, kind, rejected in [(r, k, j) for r in ("instance", "class") for k in ("number", "generator", "ref-to-number", "ref-to-generator") for j in (False, True)]:
+    stateless = []
+    for route, kind, rejected in [(r, k, j) for r in ("instance", "class") for k in ("number", "generator", "ref-to-number", "ref-to-generator", "stateless-callable") for j in (False, True)]:
         if route == "class" and kind.startswith("ref"):
+            continue
+        if kind == "stateless-callable" and (rejected or route == "class"):
             continue
         if rejected and kind != "generator":
             continue
@@ -995,8 +998,10 @@ def dynamic_set_model(ctx, rule):
         gen = Obj("a_generator", __callable__=True)
         resolved_gen = Obj("generator_the_reference_resolves_to", __callable__=True)
         ref = Obj("bound_method_reference", __callable__=True)
-        given = {"number": number, "generator": gen, "ref-to-number": ref, "ref-to-generator": ref}[kind]
-        stored = {"number": number, "generator": gen, "ref-to-number": Obj("resolved_number"), "ref-to-generator": resolved_gen}[kind]
+        # a callable that cannot carry attributes (a builtin function such as len, a bound method): attaching generator state raises
+        builtin = Obj("builtin_callable_that_cannot_carry_attributes", __callable__=True)
+        given = {"number": number, "generator": gen, "ref-to-number": ref, "ref-to-generator": ref, "stateless-callable": builtin}[kind]
+        stored = {"number": number, "generator": gen, "ref-to-number": Obj("resolved_number"), "ref-to-generator": resolved_gen, "stateless-callable": builtin}[kind]
         priv = Obj("private", refs={}, values={}, initialized=True)
         inst = Obj("instance", _param__private=priv) if route == "instance" else None
         me = Obj("dynamic_param", name="n", default=Obj("old_default"), allow_refs=True)
@@ -1018,6 +1023,9 @@ def dynamic_set_model(ctx, rule):
                 return me.attrs["default"] if inst is None else priv.attrs["values"].get("n", me.attrs["default"])
             if fn == "self._initialize_generator":
                 inits.append(tuple(args))
+                if args and args[0] is builtin:
+                    from engine.absint import _Raise as _Ra
+                    raise _Ra("AttributeError")
                 return None
             if fn == "self._set_instantiate":
                 insts.append(tuple(args))
@@ -1032,6 +1040,14 @@ def dynamic_set_model(ctx, rule):
             outs = it.run_all(f, {f.params[0]: me, f.params[1]: inst, f.params[2]: given})
         except Unsupported as e:
             raise AnalysisError("Dynamic set model: absint cannot interpret Dynamic.__set__: %s" % e)
+        if kind == "stateless-callable":
+            if len(outs) != 1 or outs[0].imprecise:
+                raise AnalysisError("Dynamic set model: Dynamic.__set__ is not interpretable precisely (%s)" % (outs[0].notes[:2] if outs else "no outcome"))
+            n += 1
+            if outs[0].kind == "raise" and priv.attrs["values"].get("n") is builtin:
+                stateless.append("instance route, assigning a callable that cannot carry attributes (a builtin such as len; the validator of a numeric Dynamic parameter admits every callable): the "
+                                 "assignment raises AttributeError AFTER the value was stored -- the parameter holds the callable although the assignment failed")
+            continue
         if len(outs) != 1 or outs[0].imprecise or outs[0].kind != ("raise" if rejected else "return"):
             raise AnalysisError("Dynamic set model: Dynamic.__set__ is not interpretable precisely (%s)" % (outs[0].notes[:2] if outs else "no outcome"))
         n += 1
@@ -1058,6 +1074,8 @@ def dynamic_set_model(ctx, rule):
                  input="class T(Parameterized): n = Number(0, allow_refs=True); t = T(); t.n = s.twice  (a @depends method of s) -> AttributeError, yet t.n follows s")
     else:
         ctx.ok(rule, f, f.node, "Dynamic set model, %d cases: generator state goes to the stored value when it is a callable, never to a reference" % n)
+    if stateless and rule.startswith("R02"):
+        ctx.fail(rule, f, f.node, "Dynamic set model: %s" % stateless[0], key=f.qualname + "::raises-after-store::stateless-callable", input="class P(Parameterized): d = Number(1); p = P(); p.d = len -> AttributeError, p.d is len")
 
 
 def invalidation_before_consumers(ctx, rule):
